@@ -2,13 +2,14 @@
 #include "scenario.h"
 
 namespace {
-struct Local { uint64_t specs = 0, runs = 0, faults_consumed = 0, faults_unreached = 0, max_allocs = 0; uint64_t per_kind[K_NKINDS] = {0}; };
+struct Local { uint64_t specs = 0, runs = 0, faults_consumed = 0, faults_unreached = 0, max_allocs = 0, retries = 0; uint64_t per_kind[K_NKINDS] = {0}; };
 
 template <class C> struct Runner {
     Ctx *ctx; Local *lc; ArenaMM ro; Mem led, libc;
     Runner(Ctx *c, Local *l) : ctx(c), lc(l), ro(64), led(0), libc(1) {}
     static Str enc(const ScnSpec &s, int memkind, uint64_t a, uint64_t b, uint64_t from) { return s.enc() + fmt("`%d`%llu`%llu`%llu`%s", memkind, (unsigned long long)a, (unsigned long long)b, (unsigned long long)from, Api<C>::name()); }
     // one execution with the given injection; returns false on violation. n_out receives the request count.
+    Str content0;     // result_content of the undisturbed run of the scenario in hand
     bool exec(const ScnSpec &sp, Mem &mem, uint64_t at, uint64_t at2, uint64_t from, int *rc0, Str *key0, uint64_t *n_out) {
         lc->runs++; ctx->progress++; mem.reset();
         Scenario<C> sc(sp, &mem, &ro); Str e = enc(sp, mem.kind, at, at2, from); int sig; Str what; SanWatch sw;
@@ -23,7 +24,17 @@ template <class C> struct Runner {
         bool injected = at || at2 || from;
         if (failed > 0) { lc->faults_consumed++; if (rc != URI_ERROR_MALLOC) what = fmt("%llu allocation request(s) failed but the call returned %d instead of URI_ERROR_MALLOC", (unsigned long long)failed, rc); }
         else if (injected) { lc->faults_unreached++; if (rc0 && (rc != *rc0 || key != *key0)) what = "no failure was consumed, yet the result differs from the undisturbed run"; }
-        else { if (rc0) *rc0 = rc; if (key0) *key0 = key; }
+        else { if (rc0) *rc0 = rc; if (key0) *key0 = key; content0 = sc.result_content(rc); }
+        // retry: after a reported failure the very same call, on the very same objects, must go through and give what the undisturbed
+        // run gave (an in-place operation may have been applied in part; nothing may have been corrupted)
+        if (what.empty() && failed > 0 && rc == URI_ERROR_MALLOC && rc0 && sp.kind != K_DISSECT && sp.kind != K_COMPOSE) {
+            int rc2 = sc.call(); Str c2 = sc.result_content(rc2); lc->retries++;
+            // (an in-place operation may legitimately have dropped the components it had already copied - uriNormalizeSyntax does -, so
+            //  for those only the return code is compared; calls with read-only inputs and a fresh output must reproduce the result)
+            bool in_place = sp.kind == K_NORMALIZE || sp.kind == K_MAKEOWNER;
+            if (rc2 != *rc0 || (!in_place && c2 != content0)) what = fmt("after the failure the same call was repeated without any failure: rc=%d result '%s', the undisturbed run gave rc=%d '%s'", rc2, esc(c2).c_str(), *rc0, esc(content0).c_str());
+            rc = rc2;
+        }
         uint64_t f_before = mem.frees();
         if (what.empty()) what = sc.inputs_changed();
         sc.cleanup(rc);
@@ -55,7 +66,7 @@ void run(Ctx &ctx) {
     Local lc; Runner<char> ra(&ctx, &lc); Runner<wchar_t> rw(&ctx, &lc);
     std::vector<ScnSpec> specs = scenario_specs(ctx.secondary ? 0 : ctx.quick() ? 2 : 3);
     for (size_t i = 0; i < specs.size(); i++) { if (!ctx.mine(i)) continue; if (ctx.expired()) break; ra.run_spec(specs[i]); rw.run_spec(specs[i]); }
-    ctx.st.count("evaluations", lc.runs); ctx.st.count("scenarios", lc.specs); ctx.st.count("faults_consumed", lc.faults_consumed); ctx.st.count("faults_not_reached", lc.faults_unreached);
+    ctx.st.count("evaluations", lc.runs); ctx.st.count("scenarios", lc.specs); ctx.st.count("faults_consumed", lc.faults_consumed); ctx.st.count("faults_not_reached", lc.faults_unreached); ctx.st.count("retries_after_failure", lc.retries);
     for (int k = 0; k < K_NKINDS; k++) ctx.st.count(Str("scenarios_") + SCN_NAMES[k], lc.per_kind[k]);
     ctx.st.distinct("max_allocs", fmt("%llu", (unsigned long long)lc.max_allocs));
     if (ctx.worker == 0) { ctx.st.count("universe", specs.size()); ctx.st.sample("normalize(a/b/c, mask 8, borrowed) ledger manager: allocation 2 fails once"); ctx.st.sample("resolve(../../x, s://u@[::1]:1/) libc: allocations 3 and 5 fail"); ctx.st.sample("dissectQuery(a=&b) custom manager: every request from 4 on fails"); }
@@ -71,7 +82,7 @@ Str coverage(const Ctx &, const Stats &st) {
     Str per; for (int k = 0; k < K_NKINDS; k++) per += jkv(Str("scenarios_") + SCN_NAMES[k], st.get(Str("scenarios_") + SCN_NAMES[k])) + ", ";
     return jkv("evaluations", st.get("evaluations")) + ", " + jkv("distinct_nontrivial", st.get("faults_consumed")) + ", " +
            jkvs("rule", "cases = (call with inputs, allocator, char type, fault set): calls are parse (3 entry points), makeOwner, normalize (8 masks, borrowed and owned), resolve (2 options), shorten (2 modes), dissectQuery, composeQueryMalloc over the scenario universe; allocator is a ledger manager or libc itself (NULL manager, failures injected in the interposed malloc/calloc/realloc); a counting run gives n requests, then EVERY k in 1..n fails once, EVERY k fails together with all later requests, and EVERY pair k1<k2 fails (deviation bound 2, n <= 48). Oracle: URI_ERROR_MALLOC whenever a failure was consumed, identical result otherwise, no crash, no block outstanding after the caller's ordinary cleanup, no invalid/double free, repeated free harmless, inputs in PROT_READ memory. distinct_nontrivial = executions in which at least one injected failure was actually consumed.") + ", " +
-           jkv("scenarios", st.get("scenarios")) + ", " + jkv("scenario_universe", st.get("universe")) + ", " + per + jkv("faults_consumed", st.get("faults_consumed")) + ", " + jkv("faults_not_reached", st.get("faults_not_reached")) + ", " + jkv("max_requests_in_one_call", mx) + ", " + jsamples(st);
+           jkv("scenarios", st.get("scenarios")) + ", " + jkv("scenario_universe", st.get("universe")) + ", " + per + jkv("faults_consumed", st.get("faults_consumed")) + ", " + jkv("faults_not_reached", st.get("faults_not_reached")) + ", " + jkv("retries_after_failure_compared", st.get("retries_after_failure")) + ", " + jkv("max_requests_in_one_call", mx) + ", " + jsamples(st);
 }
 Check chk = { "C14", "fault_enumeration", run, replay, coverage, "touching released memory is only visible in the sanitizer pass (ASan) - the plain pass poisons released blocks but hands them back to libc|deviation bound: two independent failures, or one failure with all later ones" };
 REGISTER_CHECK(chk);
